@@ -1,6 +1,7 @@
 """Hand-written semantics for the (short) list of core/std items whose MIR is not in the crate dumps.
 Each entry is exercised by the translator-validation runs (tests vectors + differential)."""
 import re
+from fractions import Fraction
 
 import z3
 
@@ -243,6 +244,24 @@ def _builtin(ex, st, c, callee, args, fn):
         k = m.group(1)
         if k in ('ceil', 'floor', 'round', 'trunc', 'abs'):
             return ex.float_round_fn(args[0], k)
+        if k in ('log2', 'exp2') and len(args) == 1:
+            # monotone transcendental functions, known exactly at the powers of two 2^-64 .. 2^64: the result is an otherwise
+            # unconstrained real that respects those anchors (x >= 2^n <=> log2 x >= n ; z >= n <=> exp2 z >= 2^n ; exp2 of an integer is
+            # exact).  Enough to bracket every value within a factor of two; finer claims come back as candidates for the native replay
+            from .values import FLin
+            x = ex.to_lin(args[0])
+            y = ex.fresh('f' + k, z3.RealSort())
+            if k == 'log2':
+                for n in range(-64, 65):
+                    p2 = z3.RealVal(str(Fraction(2) ** n))
+                    ex.side.append(z3.And(z3.Implies(x >= p2, y >= n), z3.Implies(x < p2, y < n), z3.Implies(x == p2, y == n)))
+            else:
+                ex.side.append(y > 0)
+                for n in range(-64, 65):
+                    p2 = z3.RealVal(str(Fraction(2) ** n))
+                    ex.side.append(z3.And(z3.Implies(x >= n, y >= p2), z3.Implies(x < n, y < p2), z3.Implies(x == n, y == p2)))
+            ex.transcendental_calls = getattr(ex, 'transcendental_calls', 0) + 1
+            return FLin(y)
         if k in ('max', 'min'):
             a, b = ex.to_lin(args[0]), ex.to_lin(args[1])
             from .values import FLin
